@@ -287,6 +287,9 @@ func (p *TPath) envSources() (dep, src, local string) {
 				case strings.HasPrefix(name, "SP"):
 					srcTypes += fmt.Sprintf("type %s struct{ f%s int }\n", name, name)
 					t = name
+				case strings.HasPrefix(name, "NP"):
+					fmt.Fprintf(&depB, "type %s interface{ is%s() }\n", name, name)
+					usesDep = true
 				case strings.HasPrefix(name, "TP") || strings.HasPrefix(name, "EP"):
 					fmt.Fprintf(&depB, "type %s struct{ f%s int }\n", name, name)
 					usesDep = true
@@ -366,7 +369,7 @@ func (p *TPath) envSources() (dep, src, local string) {
 
 var (
 	stubCache = map[string]*types.Package{}
-	rePlace   = regexp.MustCompile(`\b(p|r|TP|EP|TR|NR|SP|SR|Q|CQ|fTP|fEP|fTR)[a-z]\d+(x\d+)?\b`)
+	rePlace   = regexp.MustCompile(`\b(p|r|TP|EP|TR|NR|NP|SP|SR|Q|CQ|fTP|fEP|fTR)[a-z]\d+(x\d+)?\b`)
 	reMeth    = regexp.MustCompile(`Meth[A-Z]\d+`)
 	reIface   = regexp.MustCompile(`\bIface[A-Z]\b`)
 	reMock    = regexp.MustCompile(`\b[Mm]ock[A-Z]\b`)
